@@ -5,6 +5,7 @@ import (
 	"runtime"
 	"strings"
 	"sync"
+	"time"
 )
 
 // Kinds of choice points. A deviation is a non-default choice that costs; the
@@ -36,6 +37,8 @@ type Exec struct {
 	Panics   []string
 	Aborted  bool
 	Crashed  string // set by Crash: the simulated process kill point
+	Hung     string // set when the execution exceeded HangLimit (uninstrumented blocking)
+	lastSite string
 	Steps    int
 	// limits: which kinds are choice points at all in this exploration
 	kinds   map[string]bool
@@ -88,6 +91,7 @@ func (x *Exec) choose(n int, kind, site string) int {
 		}
 	}
 	x.Choices = append(x.Choices, c)
+	x.lastSite = site
 	x.Points = append(x.Points, Point{N: n, Kind: kind, Site: site})
 	x.Steps++
 	if x.Steps > x.horizon && !x.Aborted {
@@ -96,6 +100,10 @@ func (x *Exec) choose(n int, kind, site string) int {
 	}
 	return c
 }
+
+// HangLimit is the wall-clock limit of one execution. Executions take
+// milliseconds; the limit only turns a process-level hang into a report.
+var HangLimit = 120 * time.Second
 
 // Bounds maps a kind to the number of deviations allowed.
 type Bounds map[string]int
@@ -144,6 +152,7 @@ func (e *Explorer) RunOne(prefix []int) *Exec {
 	}
 	x := &Exec{prefix: prefix, kinds: e.kindsMap(), horizon: e.Horizon, done: make(chan struct{}), noSched: e.NoSched}
 	activeMu.Lock()
+	resetChans()
 	active = x
 	x.runBody(e.Body)
 	active = nil
@@ -222,7 +231,16 @@ func (x *Exec) runBody(body func()) {
 	x.threads = []*thread{t0}
 	x.cur = t0
 	go x.threadMain(t0, body)
-	<-x.done
+	select {
+	case <-x.done:
+	case <-time.After(HangLimit):
+		// A controlled thread is blocked in an operation the scheduler does not own
+		// (a channel used in a select, a real lock of the standard library, I/O):
+		// the execution cannot be completed. The goroutines of this execution are
+		// abandoned; the result is reported as a hang of the code under test.
+		x.Hung = fmt.Sprintf("execution did not finish within %v: a thread is blocked outside the scheduler's control; last scheduling point: %s", HangLimit, x.lastSite)
+		x.Aborted = true
+	}
 }
 
 // threadMain runs f as thread t and hands the baton on when it ends.
